@@ -33,7 +33,7 @@ func init() {
 		Name:  "SCRATCH-INDEX",
 		IR:    "ast",
 		Props: []string{"C36", "C35"},
-		Floor: 24,
+		Floor: 25,
 		Doc:   "in every worker callback (func(…, g int) error) each per-goroutine scratch array is indexed with the goroutine parameter only, and is created with as many elements as goroutines are requested from the reader",
 		Run:   runScratchIndex,
 	})
@@ -123,6 +123,99 @@ func runScratchIndex(c *Ctx) []Obligation {
 							}
 						}
 					}
+					return true
+				})
+				// re-based goroutine index: a wrapper that forwards to another callback with an index computed
+				// from g (emit(f, g + i*N)) must give every (i, g) pair its own index: N is the goroutine count of
+				// the options the wrapper is read with
+				ast.Inspect(lit.Body, func(m ast.Node) bool {
+					call, ok := m.(*ast.CallExpr)
+					if !ok || len(call.Args) < 2 {
+						return true
+					}
+					if ft, ok := info.TypeOf(call.Fun).Underlying().(*types.Signature); !ok || ft.Params().Len() != len(call.Args) {
+						return true
+					} else if b, ok := ft.Params().At(ft.Params().Len() - 1).Type().Underlying().(*types.Basic); !ok || b.Kind() != types.Int {
+						return true
+					}
+					if _, isIdent := ast.Unparen(call.Fun).(*ast.Ident); !isIdent {
+						return true
+					}
+					last := ast.Unparen(call.Args[len(call.Args)-1])
+					usesG := false
+					ast.Inspect(last, func(k ast.Node) bool {
+						if id, ok := k.(*ast.Ident); ok && info.Uses[id] == gp {
+							usesG = true
+						}
+						return true
+					})
+					if _, plain := last.(*ast.Ident); plain || !usesG {
+						return true
+					}
+					ob := Obligation{Key: fmt.Sprintf("%s$%d#rebase", name, litOrd), Pos: c.Position(call.Pos())}
+					// which options is this wrapper read with?  X.Read(opts, <wrapper var or literal>, …)
+					var optsText string
+					var wrapperVar types.Object
+					ast.Inspect(fd.Body, func(k ast.Node) bool {
+						if as, ok := k.(*ast.AssignStmt); ok && len(as.Lhs) == 1 && len(as.Rhs) == 1 && ast.Unparen(as.Rhs[0]) == ast.Expr(lit) {
+							if id, ok := as.Lhs[0].(*ast.Ident); ok {
+								wrapperVar = info.Defs[id]
+								if wrapperVar == nil {
+									wrapperVar = info.Uses[id]
+								}
+							}
+						}
+						return true
+					})
+					ast.Inspect(fd.Body, func(k ast.Node) bool {
+						rc, ok := k.(*ast.CallExpr)
+						if !ok || len(rc.Args) < 2 {
+							return true
+						}
+						if sel, ok := ast.Unparen(rc.Fun).(*ast.SelectorExpr); !ok || sel.Sel.Name != "Read" {
+							return true
+						}
+						cb := ast.Unparen(rc.Args[1])
+						if cb == ast.Expr(lit) {
+							optsText = nodeText(c.Fset, rc.Args[0])
+						} else if id, ok := cb.(*ast.Ident); ok && wrapperVar != nil && info.Uses[id] == wrapperVar {
+							optsText = nodeText(c.Fset, rc.Args[0])
+						}
+						return true
+					})
+					// accepted shape: g + I*N or I*N + g, N == <opts>.Goroutines / .Cores
+					shape := false
+					stride := ""
+					if be, ok := last.(*ast.BinaryExpr); ok && be.Op == token.ADD {
+						for _, pr := range [][2]ast.Expr{{be.X, be.Y}, {be.Y, be.X}} {
+							gid, ok := ast.Unparen(pr[0]).(*ast.Ident)
+							mul, ok2 := ast.Unparen(pr[1]).(*ast.BinaryExpr)
+							if !ok || !ok2 || info.Uses[gid] != gp || mul.Op != token.MUL {
+								continue
+							}
+							shape = true
+							for _, f := range []ast.Expr{mul.X, mul.Y} {
+								t := nodeText(c.Fset, f)
+								if strings.HasSuffix(t, ".Goroutines") || strings.HasSuffix(t, ".Cores") {
+									stride = t
+								}
+							}
+						}
+					}
+					switch {
+					case optsText == "":
+						ob.Status, ob.Detail = Info, fmt.Sprintf("goroutine index re-based as %s; the Read this wrapper is handed to was not found", nodeText(c.Fset, last))
+					case !shape || stride == "":
+						ob.Status = Violation
+						ob.Detail = fmt.Sprintf("the wrapper forwards the goroutine index as %s: the inner reader uses indices 0..%s.Goroutines-1 for each worker, so the outer index must be %s + worker*%s.Goroutines — with any other stride two workers' ranges overlap and share per-goroutine scratch",
+							nodeText(c.Fset, last), optsText, gp.Name(), optsText)
+					case stride != optsText+".Goroutines" && stride != optsText+".Cores":
+						ob.Status = Violation
+						ob.Detail = fmt.Sprintf("the wrapper re-bases the goroutine index with stride %s but is read with %s: the stride must be the goroutine count of those options", stride, optsText)
+					default:
+						ob.Status, ob.Detail = OK, fmt.Sprintf("goroutine index re-based as %s, stride %s = the goroutine count the wrapper is read with", nodeText(c.Fset, last), stride)
+					}
+					out = append(out, ob)
 					return true
 				})
 				var arrays []*types.Var
